@@ -119,6 +119,10 @@ pub fn run_resp_case(c: &Value) -> Value {
         body.extend_from_slice(format!("tag: {i}\nlist_OK\n").as_bytes());
     }
     if err {
+        if c["partial"].as_bool().unwrap_or(false) {
+            // the failing command printed part of its output before the error: that is not a successful frame
+            body.extend_from_slice(b"tag: 99\n");
+        }
         body.extend_from_slice(b"ACK [7@0] {x} boom\n");
     } else {
         body.extend_from_slice(b"OK\n");
